@@ -112,6 +112,30 @@ CLAIMED["C05"] = dict(
     technique="Lean 4 invariant proof over a decidable validator + differential correspondence against an independent h5py validator",
     design="7 C05")
 
+CLAIMED["C12"] = dict(
+    text="Heap model with STORED _root/_treepath caches updated exactly where node.py updates them (so staleness is expressible). "
+         "Kernel-checked for branches of every depth and branching: C12_relabel — the recursive refresh done by add / graft / cut / "
+         "force-add makes the WHOLE moved branch consistent with its new position (the repaired defect); C12_shape — the branch "
+         "arrives with its internal shape intact; C12_add — add_to_tree into any consistent tree keeps it consistent; C12_remove — "
+         "cutting a branch out keeps the rest consistent; C12_refused_* — forbidden operations change nothing.",
+    note="PARTIAL: the lift of these lemmas to a single invariant over whole heaps for graft / cut (incl. 'every id occurs exactly "
+         "once', i.e. no node lost or duplicated) is not proved; it is checked after EVERY operation of every generated sequence "
+         "by a full forest snapshot compared with the model and by the direct well-formedness predicate. Grafts of a node onto its "
+         "own descendant are excluded (the property's own exclusion).",
+    technique="Lean 4 structural-induction proofs on a heap model + differential correspondence with full snapshots after every operation",
+    design="7 C12")
+CLAIMED["C13"] = dict(
+    text="mergeDict is the loop at the end of Node._graft on the receiving root's metadata dict. Kernel-checked for ALL receiver / "
+         "donor dicts with distinct donor keys: C13_no (unchanged), C13_yes (own entries + donor entries it lacked, the SAME "
+         "objects), C13_overwrite (donor's version on conflicts, same objects), C13_copy (fresh objects — ids never used before — "
+         "for the entries it lacked, receiver's objects kept on conflicts), C13_copyover (fresh objects for every donor entry); "
+         "C13_table — the option literals accepted by the source (regenerated from node.py) are the documented five.",
+    note="Entries keyed by the Metadata object's own name (the only state the public setter produces) is a hypothesis of "
+         "C13_yes/_overwrite. Content equality of a copy with its original is part of the model's mergeStep and is compared, "
+         "together with object identity (shared vs. independent), by the correspondence after every graft / cut.",
+    technique="Lean 4 induction over the merge loop + regenerated option table + differential correspondence incl. object identity",
+    design="7 C13")
+
 NOT_YET = {}
 
 def main():
